@@ -260,8 +260,18 @@ Example C25_example_groups_sustained :
   map f_sustain (s_factors (nest_sem2 (ex_two_levels 2) ex_inner_nest)) = [4; 2; 1].
 Proof. destruct ex_nestable_s as [H1 [H2 [H3 [H4 _]]]]. repeat split; assumption. Qed.
 
+(** Constraints of the Nest itself, Nest(outer, inner, ks): they apply to the whole sequence, next to the
+    group composition ([nest_sem2_own] appends them, in normal form over the Nest's factor numbering). *)
+Theorem C25_nest_groups_own_constraints :
+  forall So Si ks s,
+    nestable_s_b So Si = true ->
+    (valid_b (nest_sem2_own So Si ks) s = true <->
+     groups_spec2 So Si s /\ forall k, In k ks -> constraint_ok (nest_sem2 So Si) s k = true).
+Proof. exact nest_groups_own. Qed.
+Print Assumptions C25_nest_groups_own_constraints.
+
 (** Outside the widest guard [nestable_s_b] (derived factors with windows over several trials, outer Pin /
-    Sequential / run-length constraints other than AtMostKInARow, constraints of the Nest itself, preamble
+    Sequential / run-length constraints other than AtMostKInARow, preamble
     trials, inner crossings with a partial last chunk - where the property fails on the real code, c25.py
     finding nest:groups:inner-partial-chunk) the following part holds for every normal form: in the
     reference semantics a non-derived factor with sustain count [su] carries one level per
